@@ -201,6 +201,13 @@ def wf_index(tree, nodes, *, expected_id=None, probe_ids=(), probe_data=(), id_o
                     errs.append(f"{safe_repr(n)}.get_clones(add_self=True) = {cls!r}, group is {group!r}")
                 if n.is_clone() != (len(group) > 1):
                     errs.append(f"{safe_repr(n)}.is_clone() = {n.is_clone()}, group size {len(group)}")
+                if n is group[0] and len(group) > 1:
+                    # the caller may do what it likes with a list it was given (here: empty it) - the next query is unaffected
+                    cls.clear()
+                    cl.reverse()
+                    again = n.get_clones(add_self=True)
+                    if _idset(again) != _idset(group) or _idset(list(tree.find_all(data_id=d))) != _idset(group):
+                        errs.append(f"after a list returned by get_clones() was emptied by the caller, lookups of {d!r} return {again!r}")
             except Exception as e:
                 errs.append(f"clone query on {safe_repr(n)} raised {e!r}")
         if len(errs) > 8:
